@@ -15,7 +15,7 @@
            over the definitions GENERATED from mrf.c (NV.Generated.MrfTables)
    Part C  Gaussian quadratic forms (two loop orders), diag M-step, BIC count *)
 From Coq Require Import List Bool ZArith QArith Qabs Lia.
-From NV.Generated Require Import MrfTables.
+From NV.Generated Require Import MrfTables GmmFrags.
 Import ListNotations.
 Open Scope Q_scope.
 
@@ -77,11 +77,7 @@ Definition gggm_posterior (p0 p1 p2 ng y pg : Q) : list Q :=
 (* GGGM.Estep row *)
 Definition gggm_estep (tiny p0 p1 p2 ng y pg : Q) : list Q := norm_floor tiny [ng * p0; y * p1; pg * p2].
 
-(* VonMisesMixture.responsibilities (one row):
-   wl = exp(lwl - lwl.mean()); resp = wl / wl.sum() *)
 Definition qmean (l : list Q) : Q := qsum l / inject_Z (Z.of_nat (length l)).
-Definition vmf_resp (EXP : Q -> Q) (lwl : list Q) : list Q :=
-  normalize (map (fun x => EXP (x - qmean lwl)) lwl).
 
 (* Segmentation.normalized_external_field (one voxel):
    f -= max(f); exp(f); f /= f.sum() *)
@@ -92,6 +88,14 @@ Fixpoint lmax (l : list Q) : Q :=
   end.
 Definition nef_row (EXP : Q -> Q) (lef : list Q) : list Q :=
   normalize (map (fun v => EXP (v - lmax lef)) lef).
+
+(* VonMisesMixture.responsibilities (one row):
+   wl = exp(lwl - lwl.max()); resp = wl / wl.sum()
+   (which shift the source uses is read from the source: GmmFrags.src_vmf_shift) *)
+Definition vmf_shift (lwl : list Q) : Q :=
+  match src_vmf_shift with ShiftMax => lmax lwl | ShiftMean => qmean lwl end.
+Definition vmf_resp (EXP : Q -> Q) (lwl : list Q) : list Q :=
+  normalize (map (fun x => EXP (x - vmf_shift lwl)) lwl).
 
 (* ------------------------------------------------------------------ Part B *)
 Record grid := mkGrid { gx : Z; gy : Z; gz : Z; gk : Z }.
@@ -257,14 +261,20 @@ Fixpoint wss (em : Q) (xs r : list Q) : Q :=
 Definition ms_mean (small m0 : Q) (r xs : list Q) : Q := (qdot r xs + m0 * small) / (qsum r + small).
 (* empmeans = like.T x / np.maximum(pop, tiny) *)
 Definition ms_empmean (tiny : Q) (r xs : list Q) : Q := qdot r xs / qmaxb (qsum r) tiny.
-(* addcov[k] = np.sum(dx[k] ** 2, 0) with dx[k] of shape (dim, 1): the SUM OVER ALL AXES of
-   (empmeans[k,j] - prior_means[k,j])^2 - one number per component, added to every axis
-   (as written in the code; the 'full' branch adds (e_j - m_j)^2 to axis j only) *)
+(* addcov: current code  addcov = (empmeans - self.prior_means) ** 2  (per axis);
+   the earlier form summed the squares over ALL axes (ms_addsq).  Which one the
+   source uses is read from the source: GmmFrags.src_addcov_kind. *)
+Definition asq_axis (tiny m0 : Q) (r xs : list Q) : Q :=
+  (ms_empmean tiny r xs - m0) * (ms_empmean tiny r xs - m0).
 Fixpoint ms_addsq (tiny : Q) (r : list Q) (pm : list Q) (cols : list (list Q)) : Q :=
   match pm, cols with
-  | m0 :: pm', xs :: cols' =>
-      (ms_empmean tiny r xs - m0) * (ms_empmean tiny r xs - m0) + ms_addsq tiny r pm' cols'
+  | m0 :: pm', xs :: cols' => asq_axis tiny m0 r xs + ms_addsq tiny r pm' cols'
   | _, _ => 0
+  end.
+Definition ms_asq (tiny : Q) (r : list Q) (pm : list Q) (cols : list (list Q)) (j : nat) : Q :=
+  match src_addcov_kind with
+  | PerAxis => asq_axis tiny (nth j pm 0) r (nth j cols [])
+  | AllAxes => ms_addsq tiny r pm cols
   end.
 (* covariance = (1/prior_scale + empcov + addcov * small*pop/(pop+small)) / (prior_dof + pop + dim + 2) *)
 Definition ms_cov (small tiny asq s0 dof0 dim : Q) (r xs : list Q) : Q :=
@@ -279,18 +289,70 @@ Definition ms_weights (pw pop : list Q) : list Q := normalize (qadd2 pw pop).
 Definition colq (j : nat) (M : list (list Q)) : list Q := map (fun row => nth j row 0) M.
 Definition seqn (n : nat) : list nat := seq 0 n.
 
-(* the whole diag M-step: like (n x k, raw), x (n x dim); prior_means / prior_scale (k x dim) *)
+(* relabelling: entry c of the result is entry sigma[c] of the argument *)
+Definition sel {A : Type} (d : A) (sigma : list nat) (l : list A) : list A := map (fun i => nth i l d) sigma.
+
+(* all axes of one component: r = its memberships, pmrow / psrow = its prior mean / scale rows *)
+Definition comp_means (small : Q) (pmrow r : list Q) (cols : list (list Q)) (dim : nat) : list Q :=
+  map (fun j => ms_mean small (nth j pmrow 0) r (nth j cols [])) (seqn dim).
+Definition comp_precs (small tiny dof0 : Q) (pmrow psrow r : list Q) (cols : list (list Q)) (dim : nat) : list Q :=
+  map (fun j => ms_prec small tiny (ms_asq tiny r pmrow cols j) (nth j psrow 0) dof0 (inject_Z (Z.of_nat dim))
+                        r (nth j cols [])) (seqn dim).
+
+(* the diag M-step from the row-normalised memberships resp (n x k) and the data x (n x dim);
+   prior_means / prior_scale are k x dim *)
+Definition mstep_from_resp (tiny small dof0 : Q) (pw : list Q) (pm ps : list (list Q)) (k dim : nat)
+           (resp x : list (list Q)) : list Q * list (list Q) * list (list Q) :=
+  let pop := map (fun c => qsum (colq c resp)) (seqn k) in
+  let cols := map (fun a => colq a x) (seqn dim) in
+  (ms_weights pw pop,
+   map (fun c => comp_means small (nth c pm []) (colq c resp) cols dim) (seqn k),
+   map (fun c => comp_precs small tiny dof0 (nth c pm []) (nth c ps []) (colq c resp) cols dim) (seqn k)).
+
+(* the whole diag M-step: like (n x k, raw likelihoods) *)
 Definition mstep_diag (tiny small dof0 : Q) (pw : list Q) (pm ps : list (list Q)) (k dim : nat)
            (like x : list (list Q)) : list Q * list (list Q) * list (list Q) :=
-  let resp := map (gmm_resp tiny) like in
-  let pop := map (fun c => qsum (colq c resp)) (seqn k) in
+  mstep_from_resp tiny small dof0 pw pm ps k dim (map (gmm_resp tiny) like) x.
+
+(* ---- the same computation with fractions reduced after every accumulation step: this is what
+   the harness executes (unreduced sums of n fractions have denominators that are products of
+   n denominators); Proofs5 shows every entry is == the corresponding entry above. *)
+Definition qsumr (l : list Q) : Q := fold_right (fun x a => Qred (x + a)) 0 l.
+Definition qdotr (a b : list Q) : Q := qsumr (qmul2 a b).
+Fixpoint wssr (em : Q) (xs r : list Q) : Q :=
+  match xs, r with
+  | x :: xs', w :: r' => Qred ((x - em) * (x - em) * w + wssr em xs' r')
+  | _, _ => 0
+  end.
+Definition ms_mean_x (small m0 : Q) (r xs : list Q) : Q := Qred ((qdotr r xs + m0 * small) / (qsumr r + small)).
+Definition ms_empmean_x (tiny : Q) (r xs : list Q) : Q := Qred (qdotr r xs / qmaxb (qsumr r) tiny).
+Definition asq_axis_x (tiny m0 : Q) (r xs : list Q) : Q :=
+  Qred ((ms_empmean_x tiny r xs - m0) * (ms_empmean_x tiny r xs - m0)).
+Fixpoint ms_addsq_x (tiny : Q) (r : list Q) (pm : list Q) (cols : list (list Q)) : Q :=
+  match pm, cols with
+  | m0 :: pm', xs :: cols' => Qred (asq_axis_x tiny m0 r xs + ms_addsq_x tiny r pm' cols')
+  | _, _ => 0
+  end.
+Definition ms_asq_x (tiny : Q) (r : list Q) (pm : list Q) (cols : list (list Q)) (j : nat) : Q :=
+  match src_addcov_kind with
+  | PerAxis => asq_axis_x tiny (nth j pm 0) r (nth j cols [])
+  | AllAxes => ms_addsq_x tiny r pm cols
+  end.
+Definition ms_cov_x (small tiny asq s0 dof0 dim : Q) (r xs : list Q) : Q :=
+  let pop := qsumr r in
+  let em := ms_empmean_x tiny r xs in
+  Qred ((1 / s0 + wssr em xs r + asq * (small * pop / (pop + small))) / (dof0 + pop + dim + 2)).
+Definition ms_prec_x (small tiny asq s0 dof0 dim : Q) (r xs : list Q) : Q :=
+  Qred (1 / ms_cov_x small tiny asq s0 dof0 dim r xs).
+Definition mstep_diag_x (tiny small dof0 : Q) (pw : list Q) (pm ps : list (list Q)) (k dim : nat)
+           (like x : list (list Q)) : list Q * list (list Q) * list (list Q) :=
+  let resp := map (fun row => map Qred (gmm_resp tiny row)) like in
+  let cols := map (fun a => colq a x) (seqn dim) in
   let qd := inject_Z (Z.of_nat dim) in
-  (ms_weights pw pop,
-   map (fun c => map (fun j => ms_mean small (nth j (nth c pm []) 0) (colq c resp) (colq j x)) (seqn dim)) (seqn k),
-   map (fun c => map (fun j => ms_prec small tiny
-                                       (ms_addsq tiny (colq c resp) (nth c pm []) (map (fun a => colq a x) (seqn dim)))
-                                       (nth j (nth c ps []) 0) dof0 qd
-                                       (colq c resp) (colq j x)) (seqn dim)) (seqn k)).
+  (normalize (qadd2 pw (map (fun c => qsumr (colq c resp)) (seqn k))),
+   map (fun c => map (fun j => ms_mean_x small (nth j (nth c pm []) 0) (colq c resp) (nth j cols [])) (seqn dim)) (seqn k),
+   map (fun c => map (fun j => ms_prec_x small tiny (ms_asq_x tiny (colq c resp) (nth c pm []) cols j)
+                                         (nth j (nth c ps []) 0) dof0 qd (colq c resp) (nth j cols [])) (seqn dim)) (seqn k)).
 
 (* guess_regularizing (l.567-601), one axis: prior mean, data variance, prior scale
    (KF = exp(2/dim * log k) is an oracle value) *)
@@ -299,11 +361,8 @@ Definition gr_var (xs : list Q) : Q :=
   wss (gr_mean xs) xs (repeat 1 (length xs)) / inject_Z (Z.of_nat (length xs)).
 Definition gr_scale (KF : Q) (xs : list Q) : Q := 1 / gr_var xs * KF.
 
-(* C.3 BIC parameter count (gmm.py l.547-552), as written in the code, times 2
-   to stay in Z:  full: k*(1 + dim + (dim*dim + 1)/2) - 1 ;  diag: k*(1 + 2*dim) - 1 *)
-Definition bic_eta2_full_code (k dim : Z) : Z := (2 * k * (1 + dim) + k * (dim * dim + 1) - 2)%Z.
-Definition bic_eta_diag_code (k dim : Z) : Z := (k * (1 + 2 * dim) - 1)%Z.
-(* free parameters of a k-component mixture: k-1 weights, k*dim means,
-   k*dim(dim+1)/2 (full, symmetric) resp. k*dim (diag) precision entries *)
-Definition free_params2_full (k dim : Z) : Z := (2 * (k - 1) + 2 * k * dim + k * dim * (dim + 1))%Z.
-Definition free_params_diag (k dim : Z) : Z := ((k - 1) + k * dim + k * dim)%Z.
+(* C.3 BIC parameter count: the code's expressions are GmmFrags.src_bic_eta_full / _diag
+   (translated from GMM.bic).  Free parameters of a k-component mixture: k-1 weights,
+   k*dim means, k*dim(dim+1)/2 (full, symmetric) resp. k*dim (diag) precision entries *)
+Definition free_params_full (k dim : Q) : Q := (k - 1) + k * dim + k * (dim * (dim + 1) / 2).
+Definition free_params_diag (k dim : Q) : Q := (k - 1) + k * dim + k * dim.
